@@ -492,6 +492,19 @@ pub fn gen(rng: &mut Rng, tier: Tier, out: &mut Vec<String>) {
     ] {
         out.push(format!("persp {} {} {} {} P 0", h32(f), h32(a), h32(n), h32(fa)));
     }
+    for _ in 0..(if q { 60 } else { 2000 }) {
+        // random invalid combinations: one parameter nonpositive, or an empty / reversed depth range
+        let mut v = [log_uniform(rng, 0.1, 10.0), log_uniform(rng, 0.25, 4.0), log_uniform(rng, 0.01, 10.0), 0.0];
+        v[3] = v[2] * (1.0 + log_uniform(rng, 0.01, 100.0));
+        match rng.below(5) {
+            0 => v[0] = if rng.bool() { 0.0 } else { -v[0] },
+            1 => v[1] = if rng.bool() { 0.0 } else { -v[1] },
+            2 => v[2] = if rng.bool() { 0.0 } else { -v[2] },
+            3 => v[3] = v[2],
+            _ => v.swap(2, 3),
+        }
+        out.push(format!("persp {} {} {} {} P 0", h32(v[0]), h32(v[1]), h32(v[2]), h32(v[3])));
+    }
     // ---- orthographic
     for i in 0..(if q { 1200 } else { 40_000 }) {
         let l = [fl(rng, -50.0, 50.0), fl(rng, -50.0, 50.0), fl(rng, -50.0, 50.0)];
@@ -540,6 +553,22 @@ pub fn gen(rng: &mut Rng, tier: Tier, out: &mut Vec<String>) {
                 range_form(rng, m)
             }
         };
+        // half of the cases: ordered ranges that overlap (non-empty intersections), the rest arbitrary forms
+        if rng.chance(1, 2) && m != u32::MAX {
+            let ov = |rng: &mut Rng| -> (String, String) {
+                let a = rng.below(20) as u32;
+                let b = a + 1 + rng.below(20) as u32;
+                let c = a + rng.below((b - a) as u64) as u32; // inside [a, b)
+                let d = c + 1 + rng.below(20) as u32;
+                let f1 = match rng.below(4) { 0 => format!("ri:{a}:{}", b - 1), 1 => format!("from:{a}"), _ => format!("r:{a}:{b}") };
+                let f2 = match rng.below(4) { 0 => format!("to:{d}"), 1 => format!("ex:{}:{d}", c.saturating_sub(1)), _ => format!("r:{c}:{d}") };
+                if rng.bool() { (f1, f2) } else { (f2, f1) }
+            };
+            let (h1, h2) = ov(rng);
+            let (v1, v2) = ov(rng);
+            out.push(format!("rect {h1} {v1} {h2} {v2} {} {}", rng.below(45), rng.below(45)));
+            continue;
+        }
         out.push(format!(
             "rect {} {} {} {} {} {}",
             big(rng, m),
